@@ -37,7 +37,9 @@ TRUSTED_BASE = [
 ASSUMPTIONS = [
     "an item borrowed from a tuple lives as long as the tuple is kept alive (tuples are immutable)",
     "loops over a tuple are unrolled 0, 1 and 2 times by the extractor",
-    "the uncached computation reads one registry state (its linearisation point); mutators end with changed()",
+    "the uncached computation reads one registry state (its linearisation point); mutators end with changed(); "
+    "the extendors list handed to a running Python walker is an immutable snapshot (add_extendor / remove_extendor "
+    "assign a new list: shape-checked on adapter.py on every run, fail closed)",
     "memory exhaustion (an unchecked PyTuple_New in _generations_tuple is reported in coverage, not judged)",
 ]
 TECHNIQUE = ("Coq proof of an ownership discipline over a reference-counting machine with an adversarial environment; "
@@ -242,8 +244,83 @@ def on_driver_crash(run, mode, res, cases):
 
 # --------------------------------------------------------------------------- the extractor tie
 
+MUTATING_METHODS = {"append", "remove", "insert", "pop", "extend", "sort", "reverse", "clear", "setdefault", "update",
+                    "popitem", "__setitem__", "__delitem__", "__iadd__"}
+
+
+def extendors_are_snapshots():
+    """Fail-closed shape check of adapter.py: the Python walkers (_lookup / _lookupAll / _subscriptions)
+    iterate ``_extendors[i]`` while other code may run (key __hash__/__eq__, other threads), which is only
+    sound if every update of an extendors list ASSIGNS A NEW LIST (``_extendors[i] = [..]``) instead of
+    mutating the list a walker may be iterating.  Accepted shape of add_extendor / remove_extendor /
+    init_extendors: assignments, ``for``, expression statements that are docstrings or calls of
+    add_extendor; no mutating method call, no ``del``, no augmented assignment; at least one assignment
+    ``_extendors[..] = <list display / comprehension / concatenation of those>``.  -> list of errors"""
+    import ast
+    path = os.path.join(C.REPO, "src", "zope", "interface", "adapter.py")
+    try:
+        tree = ast.parse(open(path).read())
+    except Exception as e:   # noqa
+        return ["adapter.py does not parse: %r" % (e,)]
+    cls = [n for n in tree.body if isinstance(n, ast.ClassDef) and n.name == "AdapterLookupBase"]
+    if len(cls) != 1:
+        return ["class AdapterLookupBase not found in adapter.py"]
+    fns = {n.name: n for n in cls[0].body if isinstance(n, ast.FunctionDef)}
+    errs = []
+
+    def fresh_list(e):
+        if isinstance(e, (ast.List, ast.ListComp)):
+            return True
+        if isinstance(e, ast.BinOp) and isinstance(e.op, ast.Add):
+            return fresh_list(e.left) and fresh_list(e.right)
+        return False
+
+    for name in ("add_extendor", "remove_extendor"):
+        fn = fns.get(name)
+        if fn is None:
+            errs.append("AdapterLookupBase.%s not found" % name)
+            continue
+        stores = 0
+        for node in ast.walk(fn):
+            if isinstance(node, (ast.AugAssign, ast.Delete, ast.While, ast.Try, ast.With, ast.Global, ast.Nonlocal)):
+                errs.append("%s: statement %s at line %d is not of the accepted shape" % (name, type(node).__name__, node.lineno))
+            if isinstance(node, ast.Call) and isinstance(node.func, ast.Attribute) and node.func.attr in MUTATING_METHODS:
+                errs.append("%s: in-place mutation .%s() at line %d (a running walker may be iterating that list)"
+                            % (name, node.func.attr, node.lineno))
+            if isinstance(node, ast.Assign):
+                for t in node.targets:
+                    if isinstance(t, ast.Subscript):
+                        base = t.value
+                        if isinstance(base, ast.Name) and base.id == "_extendors":
+                            if fresh_list(node.value):
+                                stores += 1
+                            else:
+                                errs.append("%s: _extendors[..] is assigned something that is not a new list (line %d)" % (name, node.lineno))
+                        else:
+                            errs.append("%s: item assignment to %s at line %d" % (name, ast.dump(base)[:40], node.lineno))
+                    elif isinstance(t, ast.Attribute):
+                        errs.append("%s: attribute assignment at line %d" % (name, node.lineno))
+        if not stores:
+            errs.append("%s: no assignment ``_extendors[i] = <new list>`` found" % name)
+    # the walkers must iterate the list they were given, nothing else mutates it
+    walkers = {n.name: n for n in tree.body if isinstance(n, ast.FunctionDef) and n.name in ("_lookup", "_lookupAll", "_subscriptions")}
+    for name in ("_lookup", "_lookupAll", "_subscriptions"):
+        fn = walkers.get(name)
+        if fn is None:
+            errs.append("walker %s not found" % name)
+            continue
+        for node in ast.walk(fn):
+            if isinstance(node, ast.Call) and isinstance(node.func, ast.Attribute) and isinstance(node.func.value, ast.Name) \
+                    and node.func.value.id == "provided" and node.func.attr in MUTATING_METHODS:
+                errs.append("%s mutates the extendors list it iterates (line %d)" % (name, node.lineno))
+    return errs
+
+
 def regenerate(run):
     errs = cskeleton.regenerate()
+    shape = extendors_are_snapshots()
+    run.coverage["extendors_updates_assign_new_lists"] = not shape
+    errs += ["adapter.py extendors: " + e for e in shape]
     try:
         desc = json.load(open(cskeleton.OUT_JSON))
     except Exception:   # noqa
@@ -266,7 +343,7 @@ def regenerate(run):
         if fails:
             errs.append("ownership discipline D violated by today's C source on %d path(s), first: %s"
                         % (len(fails), fails[0]))
-    _STATE["skeleton_broken"] = bool(errs)
+    _STATE["skeleton_broken"] = bool([e for e in errs if not e.startswith("adapter.py extendors")])
     return errs
 
 
@@ -298,11 +375,13 @@ def _d_failures(desc):
 HAZARDS = ["provided_hash_lookup", "provided_hash_lookupAll", "provided_hash_subscriptions", "name_bool_lookup",
            "name_hash_lookup", "required_hash_lookup1", "required_hash_adapter_hook", "super_self_property",
            "uncached_lookup", "uncached_lookupAll", "uncached_subscriptions", "generation_verify",
-           "generation_changed_leak", "provides_leak", "destructor_lookup", "long_required_hit", "adapter_hooks_mutation"]
+           "generation_changed_leak", "provides_leak", "destructor_lookup", "long_required_hit", "adapter_hooks_mutation",
+           "destructor_reenters_during_changed"]
 
 
 # deterministic interleavings (a simulated thread switch), run on both implementations
-BOTH_MODE_HAZARDS = ["stale_ro_after_reader_refresh", "concurrent_changed_unsubscribe"]
+BOTH_MODE_HAZARDS = ["stale_ro_after_reader_refresh", "concurrent_changed_unsubscribe",
+                     "mutation_from_key_hash_during_walk"]
 
 
 def _asan_env():
